@@ -26,12 +26,22 @@ func showFamily(mk func() *clustermc.Family) func(tier, sub string) int {
 				continue
 			}
 			for _, cfg := range sc.Configs {
-				res, err := schedrun.RunCycle(sc.World, cfg, nil)
+				var obs clustermc.ObserverWithData
+				var sobs schedrun.Observer
+				if f := mk(); f.NewObserver != nil {
+					obs = f.NewObserver(sc.World, cfg)
+					sobs = obs
+				}
+				res, err := schedrun.RunCycle(sc.World, cfg, sobs)
 				if err != nil {
 					fmt.Println(sc.Name, "ERROR", err)
 					continue
 				}
 				fmt.Printf("%s [%s]\n", sc.Name, cfg.Label())
+				if obs != nil {
+					b, _ := json.Marshal(obs.Data())
+					fmt.Printf("    observer: %.1500s\n", b)
+				}
 				for _, d := range res.Decisions {
 					fmt.Printf("    %v [action %s]\n", d, d.AfterAction)
 				}
